@@ -307,6 +307,7 @@ def run(ctx):
                 for _ in range(2):
                     history(info, d, docs, ops.MARK_OPS, rng.randint(1, 3))
     c04_guard.aimed(ctx, rng, gen, undo_single, reqs, metas)
+    c04_marks.aimed(ctx, rng, gen, reqs, metas)
     flush()
     return ctx.finish(
         rule="a case is a single applied replace/replace-around/attr/doc-attr/node-mark step (every schema) or a history of "
